@@ -74,6 +74,9 @@ def check_updater(ctx, c):
                                    'run to run and from object to object'))
                 elif f.startswith(NONDET_PREFIX):
                     bad.append((x, f'{f}(): wall clock / global generator'))
+                elif f.startswith(f'{stream}.') and f != f'{stream}.original_seed':
+                    bad.append((x, f'{f}(): the current state of the stream (its present seed, its draws) depends on how the stream was used and re-seeded before -- '
+                                   'only the original seed is a fixed property of the stream'))
                 elif f in (f'{stream}.original_seed', 'len', 'int', 'abs', 'ord', 'sum', 'zlib.crc32', 'zlib.adler32', 'int.from_bytes', 'min', 'max') \
                         or f.endswith('.encode') or f.startswith('hashlib.') or f.endswith('.digest') or f.endswith('.hexdigest'):
                     pass
@@ -86,6 +89,9 @@ def check_updater(ctx, c):
                     for y in ast.walk(a.value):
                         if isinstance(y, ast.Call) and (unparse(y.func) in NONDET_CALLS or unparse(y.func).startswith(NONDET_PREFIX)):
                             bad.append((y, f'{unparse(y.func)}() via local {x.id}'))
+                        elif isinstance(y, ast.Call) and unparse(y.func).startswith(f'{stream}.') and unparse(y.func) != f'{stream}.original_seed':
+                            bad.append((y, f'{unparse(y.func)}() via local {x.id}: the current state of the stream depends on how it was used and re-seeded before; '
+                                           'only the original seed is a fixed property of the stream'))
                 if not asg:
                     unknown.append(x.id)
         ok = ok_recv and not bad
@@ -162,8 +168,56 @@ def check_updater(ctx, c):
     glob = [n for n in walk_shallow(fn) if isinstance(n, (ast.Global, ast.Nonlocal))]
     muts = [x for x in walk_shallow(fn) if isinstance(x, ast.Call) and isinstance(x.func, ast.Attribute) and isinstance(x.func.value, ast.Attribute)
             and is_self_attr(x.func.value) and x.func.attr in ('append', 'pop', 'update', 'add', 'remove', 'clear', 'setdefault', 'insert', 'extend')]
+    # a memo of a pure function of its key is not state that a result can depend on: `self.M[K] = V` with V computed from the components of K
+    # (and constants) alone, M read only under the same key
+    memo_note = ''
+    keep = []
+    for w in writes:
+        pure = False
+        if isinstance(w, ast.Subscript) and is_self_attr(w.value) and isinstance(w.ctx, ast.Store):
+            M = w.value.attr
+            ktxt = unparse(w.slice)
+            knames = {y.id for y in ast.walk(w.slice) if isinstance(y, ast.Name)}
+            asg = [a for a in walk_shallow(fn) if isinstance(a, ast.Assign) and any(t is w for t in a.targets)]
+            val = asg[0].value if len(asg) == 1 else None
+            for _k in range(3):
+                if isinstance(val, ast.Name) and val.id not in knames:
+                    # the value of the local at the store: its latest single-name definition in the same block
+                    defs_ = [a for a in walk_shallow(fn) if isinstance(a, (ast.Assign, ast.AnnAssign)) and getattr(a, 'value', None) is not None and any(
+                        isinstance(t, ast.Name) and t.id == val.id for t in (a.targets if isinstance(a, ast.Assign) else [a.target]))]
+                    nd_w = g.node_for(asg[0])
+                    doms = [a for a in defs_ if g.dominates(g.node_for(a), nd_w) and not any(
+                        b is not a and g.reaches(g.node_for(a), g.node_for(b)) and g.reaches(g.node_for(b), nd_w) for b in defs_)]
+                    val = doms[0].value if len(doms) == 1 else None
+                else:
+                    break
+            if val is not None:
+                free = {y.id for y in ast.walk(val) if isinstance(y, ast.Name)} - {'zlib', 'int', 'abs', 'len', 'ord', 'hashlib', 'sum', 'min', 'max'}
+                calls_ok = all(unparse(y.func) in ('zlib.crc32', 'zlib.adler32', 'int', 'abs', 'len', 'ord', 'int.from_bytes') or unparse(y.func).endswith('.encode')
+                               or unparse(y.func).startswith('hashlib.') or unparse(y.func).endswith(('.digest', '.hexdigest'))
+                               for y in ast.walk(val) if isinstance(y, ast.Call))
+                attrs_ok = not any(isinstance(y, ast.Attribute) and isinstance(y.value, ast.Name) and y.value.id in ('self', stream) for y in ast.walk(val))
+                other_uses = [y for y in walk_shallow(fn) if is_self_attr(y, M) and isinstance(y.ctx, ast.Load)]
+                same_key = all(any((isinstance(p_, ast.Subscript) and p_.value is y and unparse(p_.slice) == ktxt) or
+                                   (isinstance(p_, ast.Call) and isinstance(p_.func, ast.Attribute) and p_.func.value is y and p_.func.attr == 'get' and p_.args
+                                    and unparse(p_.args[0]) == ktxt) or
+                                   (isinstance(p_, ast.Compare) and p_.comparators[0] is y and unparse(p_.left) == ktxt)
+                                   for p_ in walk_shallow(fn)) for y in other_uses)
+                if free <= knames and calls_ok and attrs_ok and same_key:
+                    pure = True
+                    memo_note = f'; `self.{M}[{ktxt}]` memoises a value computed from its key alone'
+                elif same_key:
+                    extra = sorted(free - knames) + ([] if attrs_ok else ['the stream / updater'])
+                    ctx.ob('R13.3', f'{c}.update_seed:memo', False)
+                    ctx.finding('R13.3', f'{c}.update_seed:memo-key', ci, w,
+                                f'`{short(asg[0], 70)}` memoises under the key `{ktxt}` a value that also depends on {extra}: a later call with the same key but another '
+                                f'{extra[0] if extra else "input"} (another stream object of the same name, with another original seed) gets the first one\'s seed', where=f'{c}.update_seed')
+                    pure = True         # reported specifically
+        if not pure:
+            keep.append(w)
+    writes = keep
     ok = not writes and not glob and not muts
-    ctx.ob('R13.3', f'{c}.update_seed:stateless', ok, sample=f'{c}.update_seed writes no updater state: {ok}')
+    ctx.ob('R13.3', f'{c}.update_seed:stateless', ok, sample=f'{c}.update_seed writes no updater state: {ok}' + memo_note)
     if not ok:
         x = (writes + glob + muts)[0]
         ctx.finding('R13.3', f'{c}.update_seed:state', ci, x, f'update_seed changes updater state (`{short(x)}`): the seed a stream gets depends on the order in which streams are listed',
@@ -278,8 +332,13 @@ def r137_live_table(ctx, impls):
                       and any(is_self_attr(t, f) for t in (a.targets if isinstance(a, ast.Assign) else [a.target]))]
             if not stores:
                 continue
+            if all(isinstance(a.value, (ast.Dict, ast.List, ast.Set)) and not (a.value.keys if isinstance(a.value, ast.Dict) else a.value.elts)
+                   or (isinstance(a.value, ast.Call) and unparse(a.value.func) in ('dict', 'list', 'set') and not a.value.args) for a in stores):
+                continue                # created empty by the updater itself: working state (R13.3 decides it), not the configured table
             # only container-valued configuration (a table): a parameter whose items are read in update_seed
-            table = any(isinstance(x, (ast.Subscript, ast.Compare)) and any(is_self_attr(y, f) for y in ast.walk(x)) for x in walk_shallow(us))
+            table = any(isinstance(x, (ast.Subscript, ast.Compare)) and any(is_self_attr(y, f) for y in ast.walk(x)) for x in walk_shallow(us)) or \
+                any(isinstance(x, ast.Call) and isinstance(x.func, ast.Attribute) and x.func.attr in ('get', 'items', 'keys', 'values', '__contains__', '__getitem__')
+                    and is_self_attr(x.func.value, f) for x in walk_shallow(us))
             if not table:
                 continue
             n += 1
